@@ -1467,7 +1467,130 @@ def run_real_fault(transport, scenario, fault):
     return res
 
 
+def run_real_threads(transport, scenario, fault=None):
+    """several threads on side A when the end comes: `two_waiters` — two requests without timeout, one thread reading,
+    the other parked in serve() waiting for the receive lock; `serve_threaded` — Connection.serve_threaded(3).  The end:
+    B's stream closed abruptly, or (fault) A's recv failing with an OSError.  Nobody of side A may stay blocked."""
+    import errno as errno_mod
+    from rpyc.core.stream import SocketStream
+    box = dict(hooks={"A": 0, "B": 0}, started=threading.Event(), release=threading.Event(), go=threading.Event(),
+               held=[])
+    fsock = None
+    if fault:
+        try:
+            a, b = socket.socketpair()
+        except Exception as ex:  # noqa
+            raise Infrastructure("socketpair: %r" % (ex,))
+        fsock = FaultSock(a)
+        stra, strb = SocketStream(fsock), SocketStream(b)
+    else:
+        stra, strb = real_pair(transport)
+    res = dict(transport=transport, scenario=scenario, fault=fault, a_out=None, serve_all_returned=None, wait_out=None)
+    threads, toks, outs = [], [], {}
+    try:
+        sa, sb = RealSvc(box, "A"), RealSvc(box, "B")
+        ca = sa._connect(Channel(stra), {"sync_request_timeout": None})
+        cb = sb._connect(Channel(strb), {"sync_request_timeout": None})
+        tb = threading.Thread(target=lambda: _quiet(cb.serve_all), daemon=True, name="real-B")
+        tb.start()
+        threads.append(tb)
+        root = ca.root
+        slow = root.slow
+        two = scenario.endswith("two_waiters")
+        ars = [rpyc.async_(slow)()]
+        toks.append("is0:F")
+        if two:
+            ars.append(rpyc.async_(slow)())                 # queued behind the first at B
+            toks.append("is1:F")
+        if not box["started"].wait(REAL_CEILING):
+            raise Infrastructure("side B never started the handler")
+
+        def waiter(i):
+            try:
+                ars[i].wait()                                 # no expiry: only the end of the connection can release it
+                outs[i] = "v"
+            except EOFError:
+                outs[i] = "eof"
+            except BaseException as ex:  # noqa
+                outs[i] = "other:" + type(ex).__name__
+
+        def threaded():
+            try:
+                ca.serve_threaded(thread_count=3)
+                res["serve_all_returned"] = True
+            except BaseException as ex:  # noqa
+                res["a_out"] = "other:" + type(ex).__name__
+        if fsock is not None:
+            fsock.arm("recv", fault["after"], getattr(errno_mod, fault["errno"]))
+        mine = []
+        if two:
+            for i in (0, 1):
+                th = threading.Thread(target=waiter, args=(i,), daemon=True, name="real-A%d" % i)
+                th.start()
+                mine.append(th)
+                toks.append("w%d:Fe" % i)
+                time.sleep(0.03)        # (not an observation: whichever thread reads, the other one parks)
+        else:
+            th = threading.Thread(target=threaded, daemon=True, name="real-A")
+            th.start()
+            mine.append(th)
+            time.sleep(0.03)
+        threads += mine
+        if fsock is not None:
+            box["release"].set()                              # B answers; A's read of the reply fails
+        else:
+            strb.close()                                      # B's end goes away: no HANDLE_CLOSE
+        toks.append("ese")
+        res["closed_in_time"] = wait_until(lambda: ca.closed)
+        res["a_thread_ended"] = wait_until(lambda: not any(t.is_alive() for t in mine))
+        res["threads_still_blocked"] = [t.name for t in mine if t.is_alive()]
+        if fsock is not None:
+            res["fault_fired"] = fsock.fired
+        if not two:
+            toks.append("sxe")
+            tw = threading.Thread(target=waiter, args=(0,), daemon=True, name="real-W")
+            tw.start()
+            threads.append(tw)
+            wait_until(lambda: not tw.is_alive())
+            toks.append("w0:Fe")
+        res["wait_outs"] = [outs.get(i, "hang") for i in range(len(ars))]
+        res["wait_out"] = "eof" if all(o == "eof" for o in res["wait_outs"]) else ",".join(res["wait_outs"])
+        res["closed"] = bool(ca.closed)
+        res["hooks"] = box["hooks"]["A"]
+        try:
+            res["tables"] = (len(ca._local_objects._dict), len(ca._proxy_cache), len(ca._request_callbacks))
+        except AttributeError:
+            res["tables"] = None
+        try:
+            ca.close()
+            res["close_again"] = None
+        except BaseException as ex:  # noqa
+            res["close_again"] = type(ex).__name__
+        toks.append("cb")
+        res["hooks_after"] = box["hooks"]["A"]
+    finally:
+        box["release"].set()
+        for st in (stra, strb):
+            try:
+                st.close()
+            except Exception:  # noqa
+                pass
+        try:                                                  # (lets a thread that was left parked go, so it does not linger)
+            with ca._recv_event:
+                ca._recv_event.notify_all()
+        except Exception:  # noqa
+            pass
+        for th in threads:
+            th.join(1.0)
+    if fsock is not None and not res.get("fault_fired"):
+        raise Infrastructure("the injected recv failure was never reached (%s)" % scenario)
+    res["tokens"] = toks
+    return res
+
+
 def run_real_case(case):
+    if case["scenario"].endswith("two_waiters") or case["scenario"].endswith("serve_threaded"):
+        return run_real_threads(case["transport"], case["scenario"], case.get("fault"))
     if case.get("fault"):
         return run_real_fault(case["transport"], case["scenario"], case["fault"])
     return run_real(case["transport"], case["scenario"])
@@ -1481,7 +1604,10 @@ def _quiet(fn):
 
 
 def real_view(res):
-    out = "0:%s" % (res["wait_out"] or "hang")
+    if res.get("wait_outs"):
+        out = ",".join("%d:%s" % (i, o) for i, o in enumerate(res["wait_outs"]))
+    else:
+        out = "0:%s" % (res["wait_out"] or "hang")
     tables = "?" if res["tables"] is None else ("T" if sum(res["tables"]) == 0 else "F")
     return "closed=%s hook=%d tables=%s out=%s blocked=0" % ("T" if res["closed"] else "F", res["hooks_after"], tables, out)
 
@@ -1493,7 +1619,7 @@ def real_model_view(mline):
     if pm["acc"] != pm["total"]:
         return "acc=%d/%d" % (pm["acc"], pm["total"])
     return "closed=%s hook=%d tables=%s out=%s blocked=%d" % (pm["closed"], pm["hook"], pm["tables"],
-                                                              ",".join(pm["out"]), len(pm["blocked"]))
+                                                              ",".join(sorted(pm["out"])), len(pm["blocked"]))
 
 
 def real_oracle(res):
@@ -1502,6 +1628,10 @@ def real_oracle(res):
     if res.get("fault"):
         f = res["fault"]
         where += " (%s raising OSError(%s) after %d bytes)" % (f["op"], f["errno"], f["after"])
+    if res.get("threads_still_blocked"):
+        return ("%s: side A is closed=%s but its thread(s) %s were still blocked %.0f s after the end (requests: %s)"
+                % (where, res.get("closed"), res["threads_still_blocked"], REAL_CEILING, res.get("wait_outs")),
+                "C11:thread-still-blocked-after-the-end")
     if not res.get("closed_in_time"):
         return ("%s: side A never became closed within %.0f s after %s (hook runs %d, tables %r, pending request: %s)"
                 % (where, REAL_CEILING, "its transport failed" if res.get("fault") else "its peer went away",
@@ -1513,7 +1643,8 @@ def real_oracle(res):
         return ("%s: closed but holds %r" % (where, res["tables"]), "C11:tables-not-cleared")
     if res["wait_out"] != "eof":
         return ("%s: the pending request ended with %r, not EOFError" % (where, res["wait_out"]), "C11:hang")
-    if not res["a_thread_ended"] or (not res["scenario"].endswith("in_wait") and not res["serve_all_returned"]):
+    if not res["a_thread_ended"] or (not res["scenario"].endswith("in_wait") and not res["scenario"].endswith("two_waiters")
+                                     and not res["serve_all_returned"]):
         return ("%s: serve_all()/wait() did not return" % where, "C11:hang")
     if res["close_again"] is not None:
         return ("%s: closing again raised %s" % (where, res["close_again"]), "C11:close-again-raises")
@@ -1541,6 +1672,14 @@ def real_cases():
     cases = [dict(kind="real", transport=t, scenario=sc) for t in REAL_TRANSPORTS for sc in REAL_SCENARIOS]
     for t, sc, op, en, after in REAL_FAULTS:
         cases.append(dict(kind="real", transport=t, scenario=sc, fault=dict(op=op, errno=en, after=after)))
+    # several threads on one side when the end comes: nobody may stay blocked
+    for t in REAL_TRANSPORTS:
+        cases.append(dict(kind="real", transport=t, scenario="abrupt_two_waiters"))
+        cases.append(dict(kind="real", transport=t, scenario="abrupt_serve_threaded"))
+    cases.append(dict(kind="real", transport="socket", scenario="io_error_two_waiters",
+                      fault=dict(op="recv", errno="ECONNRESET", after=2)))
+    cases.append(dict(kind="real", transport="socket", scenario="io_error_serve_threaded",
+                      fault=dict(op="recv", errno="EHOSTUNREACH", after=0)))
     return cases
 
 
